@@ -9,6 +9,7 @@ import VaxisModel.Lemmas.ImageTerm
 import VaxisModel.Model.ImageDraw
 import VaxisModel.Gen.ImageFlow
 import VaxisModel.Lemmas.ImageFlowExpected
+import VaxisModel.Lemmas.Window
 
 namespace VaxisModel.Props.C20Ext
 open VaxisModel.Model.ImageFit VaxisModel.Model.ImageTerm VaxisModel.Spec.Images VaxisModel.Gen.ImageConsts
@@ -241,23 +242,47 @@ theorem sixel_draw_clipped (sw sh : Int) (mark : Cell) (win : Win) (s : Screen) 
   let ⟨hc, hs, _⟩ := C11.drawops_clip win s _ x y h
   ⟨hc, hs⟩
 
-theorem sixel_placement_inside (sw sh : Int) (win : VaxisModel.Model.Window.Win) (hd : sixelDrawn sw sh win = true) :
-    placementInside sw sh win ∧
-    ∀ dx dy : Int, 0 ≤ dx → dx < sw → 0 ≤ dy → dy < sh → win.guard dx dy = true := by
-  simp only [sixelDrawn, Bool.not_eq_true', Bool.or_eq_false_iff, decide_eq_false_iff_not] at hd
+/-- The size test as written in both `Draw` methods. -/
+abbrev sizeTest : Gate := .size .gt .or .gt
+
+/-- **The size gate, for every gate list.**  Whatever else a `Draw` method tests, if one of its leading
+    `if … { return }` statements is `X.w > w || X.h > h` (with `w, h := win.Size()`), then an image that is drawn is at
+    most as large as the window, and every cell `(dx, dy)` the `iw × ih` placement covers passes the window's own
+    `SetCell` guard — for all sizes (also negative ones), all windows, all data / encoding states. -/
+theorem size_gate_inside (gates : List Gate) (hm : sizeTest ∈ gates) (hasData encoding : Bool) (iw ih : Int)
+    (win : VaxisModel.Model.Window.Win) (hd : drawnWith gates hasData encoding iw ih win = true) :
+    placementInside iw ih win ∧ ∀ dx dy : Int, placementCovers iw ih dx dy → win.guard dx dy = true := by
+  have h := (List.all_eq_true.mp hd) _ hm
+  simp only [gateFires, connBool, cmpInt, Bool.not_eq_true', Bool.or_eq_false_iff, decide_eq_false_iff_not] at h
   refine ⟨⟨by omega, by omega⟩, ?_⟩
-  intro dx dy h1 h2 h3 h4
+  intro dx dy ⟨h1, h2, h3, h4⟩
   unfold VaxisModel.Model.Window.Win.guard
   have a : ¬ (dy ≥ win.height ∨ dx ≥ win.width) := by omega
   have b : ¬ (dy < 0 ∨ dx < 0) := by omega
   simp [a, b]
 
-/-- The statement "a drawn placement lies inside its window" for kitty images (false: `Witness/F120.lean`). -/
+/-- **The gates of the source** (regenerated, structured): `KittyImage.Draw` tests "still encoding" and the size;
+    `Sixel.Draw` tests "no data", "still encoding" and the size.  No condition is unknown to the extractor. -/
+theorem draw_gates_shape :
+    kittyGates = [.encoding, sizeTest] ∧ sixelGates = [.noData, .encoding, sizeTest] := by decide
+
+theorem sixel_placement_inside (sw sh : Int) (win : VaxisModel.Model.Window.Win) (hd : sixelDrawn sw sh win = true) :
+    placementInside sw sh win ∧
+    ∀ dx dy : Int, 0 ≤ dx → dx < sw → 0 ≤ dy → dy < sh → win.guard dx dy = true := by
+  obtain ⟨h1, h2⟩ := size_gate_inside sixelGates (by decide) true false sw sh win hd
+  exact ⟨h1, fun dx dy a b c d => h2 dx dy ⟨a, b, c, d⟩⟩
+
+/-- The statement "a drawn placement lies inside its window" for kitty images.  False before the F120 repair
+    (`Witness/F120.lean`: with the old gate list `[.encoding]` a 4×4 image is placed in a 2×2 window). -/
 def kitty_placement_inside_full : Prop :=
   ∀ (kw kh : Int) (win : VaxisModel.Model.Window.Win), kittyDrawn kw kh win = true → placementInside kw kh win
 
-/-- What does hold for kitty images: a placement at most as large as the window lies inside it — i.e. after
-    `Resize(w, h)` with the window's own size (`fit_term`). -/
+/-- **F120 repaired**: the full statement holds of the current source. -/
+theorem kitty_placement_inside : kitty_placement_inside_full :=
+  fun kw kh win hd => (size_gate_inside kittyGates (by decide) true false kw kh win hd).1
+
+/-- What held for kitty images before the repair, and still does: a placement at most as large as the window lies
+    inside it — i.e. after `Resize(w, h)` with the window's own size (`fit_term`). -/
 theorem kitty_placement_inside_partial (F : FloatOps) (hF : Sound F) (wPix hPix : Nat) (xpix cols ypix rows : Int)
     (win : VaxisModel.Model.Window.Win) (cw ch : Nat) (hw : 0 < wPix) (hh : 0 < hPix)
     (hr : protoCellSizeTerm F wPix hPix win.width.toNat win.height.toNat xpix cols ypix rows = .ok (cw, ch))
@@ -266,6 +291,60 @@ theorem kitty_placement_inside_partial (F : FloatOps) (hF : Sound F) (wPix hPix 
   obtain ⟨h1, h2⟩ := fit_term F hF wPix hPix _ _ xpix cols ypix rows cw ch hw hh hr
   unfold placementInside
   omega
+
+/-- The two graphics protocols that place an image as a whole (the block renderers draw cell by cell:
+    `block_draw_clipped`). -/
+inductive Proto | kitty | sixel
+  deriving DecidableEq, Repr
+
+def Proto.gates : Proto → List Gate
+  | .kitty => kittyGates
+  | .sixel => sixelGates
+
+open VaxisModel.Model.Window VaxisModel.Spec.Window in
+/-- **A placement never covers a cell outside its window** — both protocols, every image size, every window
+    (whatever its parent chain), every state of the image (data present or not, encoder running or not): if `Draw`
+    records a placement of `iw × ih` cells at `win.Origin()`, then every screen cell `(x, y)` that placement covers
+    lies in the window's own rectangle (absolute coordinates), and relative to the window it is a cell that
+    `win.SetCell` itself would accept. -/
+theorem placement_inside_window (p : Proto) (hasData encoding : Bool) (iw ih : Int) (win : Win)
+    (hd : drawnWith p.gates hasData encoding iw ih win = true) (x y : Int)
+    (hc : placementCovers iw ih (x - (win.origin).1) (y - (win.origin).2)) :
+    inOwnRect win x y ∧ win.guard (x - (win.origin).1) (y - (win.origin).2) = true := by
+  have hm : sizeTest ∈ p.gates := by cases p <;> decide
+  obtain ⟨⟨hw, hh⟩, hg⟩ := size_gate_inside p.gates hm hasData encoding iw ih win hd
+  refine ⟨?_, hg _ _ hc⟩
+  obtain ⟨h1, h2, h3, h4⟩ := hc
+  unfold inOwnRect
+  rw [← VaxisModel.Lemmas.Window.origin_eq_absOrigin]
+  refine ⟨by omega, by omega, by omega, by omega⟩
+
+/-- Non-vacuity: a 2×1 image is drawn into a 2×2 window at (5,5) by both protocols, and covers (6,5). -/
+example : drawnWith Proto.kitty.gates true false 2 1 (VaxisModel.Model.Window.Win.new (.root 0 0 10 10) 5 5 2 2) = true ∧
+    drawnWith Proto.sixel.gates true false 2 1 (VaxisModel.Model.Window.Win.new (.root 0 0 10 10) 5 5 2 2) = true ∧
+    placementCovers 2 1 (6 - 5) (5 - 5) := by
+  refine ⟨by decide, by decide, ?_⟩
+  unfold placementCovers
+  decide
+
+/-- An image that does not fit is not drawn at all (both protocols): nothing is placed, so nothing is covered. -/
+theorem too_large_not_drawn (p : Proto) (hasData encoding : Bool) (iw ih : Int) (win : VaxisModel.Model.Window.Win)
+    (h : iw > win.width ∨ ih > win.height) : drawnWith p.gates hasData encoding iw ih win = false := by
+  have hm : sizeTest ∈ p.gates := by cases p <;> decide
+  cases hd : drawnWith p.gates hasData encoding iw ih win with
+  | false => rfl
+  | true =>
+    have := (size_gate_inside p.gates hm hasData encoding iw ih win hd).1
+    unfold placementInside at this
+    omega
+
+/-- …and an image with data that is not being encoded and fits *is* drawn: the gates refuse nothing else. -/
+theorem fitting_drawn (p : Proto) (iw ih : Int) (win : VaxisModel.Model.Window.Win)
+    (h : placementInside iw ih win) : drawnWith p.gates true false iw ih win = true := by
+  obtain ⟨hw, hh⟩ := h
+  have a : ¬ (iw > win.width) := by omega
+  have b : ¬ (ih > win.height) := by omega
+  cases p <;> simp [Proto.gates, draw_gates_shape.1, draw_gates_shape.2, drawnWith, gateFires, connBool, cmpInt, a, b]
 
 /-! ## Upload bookkeeping of kitty images -/
 
@@ -305,13 +384,6 @@ open VaxisModel.Gen VaxisModel.Lemmas in
 theorem facts_resize_cell_size :
     ImageFlow.kittyResizeCell = ImageFlowExpected.kittyResizeCell ∧
     ImageFlow.sixelResizeCell = ImageFlowExpected.sixelResizeCell := by decide +kernel
-
-open VaxisModel.Gen VaxisModel.Lemmas in
-/-- The size gate of `Sixel.Draw` (= `Model.ImageDraw.sixelDrawn`) and the absence of one in `KittyImage.Draw`
-    (= `kittyDrawn`, finding F120). -/
-theorem facts_draw_gates :
-    ImageFlow.sixelDrawGates = ImageFlowExpected.sixelDrawGates ∧
-    ImageFlow.kittyDrawGates = ImageFlowExpected.kittyDrawGates := by decide +kernel
 
 open VaxisModel.Gen VaxisModel.Lemmas in
 /-- Upload side (= `Model.ImageTerm.KImg.write / resize`): `writeTo` sends and empties `k.buf` and sets `uploaded` unless it
